@@ -199,6 +199,9 @@ class SimPool:
         return None
 
     def map(self, func, iterable, callback=None):
+        if self.closed:
+            # what multiprocess.Pool does after close()/terminate()
+            raise ValueError("Pool not running")
         tasks = list(iterable)
         key = "%s.%d" % (self.op_id, self.map_idx)
         midx = self.map_idx
@@ -354,7 +357,13 @@ class SimPool:
             t = list(t)
             fields = []
             for x in t:
-                if type(x).__name__ == "CJokerHelper":
+                if getattr(x, "_verif_proxy", False):
+                    if id(x) not in new_helper:
+                        from .llproxy import rebuild
+
+                        new_helper[id(x)] = rebuild(x)
+                    fields.append(new_helper[id(x)])
+                elif type(x).__name__ == "CJokerHelper":
                     if id(x) not in new_helper:
                         ctor, args = x.__reduce__()[:2]
                         new_helper[id(x)] = ctor(*args)
